@@ -323,6 +323,9 @@ func checkHookSelection(t *testing.T, col *evid.Collector, offset int) {
 	}
 	col.Bound("hooks_max_all_stage_sets", maxHooks)
 	col.Bound("hooks_max_both_stages_only", extra)
+	if extra == 0 {
+		col.Bound("hooks_fixed_two_hook_cases", 12)
+	}
 	cases := hookCases(maxHooks, extra)
 	col.Bound("hook_assignments", len(cases))
 	for i, c := range cases {
